@@ -143,6 +143,9 @@ def handle : Handler := fun op args =>
       outE (importList b u k) showList
   | "c20.imptable" => withArgs (do let b ← pBytes; let us ← pRats; let k ← pNat; pure (b, us, k)) args fun (b, us, k) =>
       outE (importTable b us k) showTable
+  -- Import_Table with the repair proposed for audit item P10 (pending in /repo): exact fill or diagnostic, trailing blank lines ignored
+  | "c20.imptable2" => withArgs (do let b ← pBytes; let us ← pRats; let k ← pNat; pure (b, us, k)) args fun (b, us, k) =>
+      outE (importTable2 b us k) showTable
   | "c20.inunits" => withArgs (do let x ← pRat; let u ← pRat; let r ← pBool; let d ← pNat; pure (x, u, r, d)) args fun (x, u, r, d) =>
       if u = 0 ∨ (r ∧ d = 0) then "undef" else outR (inUnits x u r d) showRat
   | "c20.inunitsL" => withArgs (do let x ← pRats; let u ← pRat; let r ← pBool; let d ← pNat; pure (x, u, r, d)) args fun (x, u, r, d) =>
